@@ -543,6 +543,27 @@ int main (int argc, char **argv)
 				for (i = 0; i < nmsgs; i++) { fputs ("W ", stdout); put_enc (stdout, msgs[i], -1); putchar ('\n'); }
 				msgs_clear ();
 			}
+			else if (!strcmp (op, "EDIT"))
+			{
+				/* EDIT h <kind> args: one edit through the public API (the problem written afterwards is the edited one)
+				   chgsense i S | chgrange i v | chgrhs i v | chgbnd j L|U|B v | chgobj j v | chgcoef i j v |
+				   delrow i | delcol j | objsense MIN|MAX */
+				const char *k = qsx_tok[2];
+				int rv = -1;
+				mpq_t v;
+				mpq_init (v);
+				if (!strcmp (k, "chgsense")) rv = mpq_QSchange_sense (P, atoi (qsx_tok[3]), qsx_tok[4][0]);
+				else if (!strcmp (k, "chgrange")) { qsx_parse_q (qsx_tok[4], v); rv = mpq_QSchange_range (P, atoi (qsx_tok[3]), v); }
+				else if (!strcmp (k, "chgrhs")) { qsx_parse_q (qsx_tok[4], v); rv = mpq_QSchange_rhscoef (P, atoi (qsx_tok[3]), v); }
+				else if (!strcmp (k, "chgbnd")) { qsx_parse_q (qsx_tok[5], v); rv = mpq_QSchange_bound (P, atoi (qsx_tok[3]), qsx_tok[4][0], v); }
+				else if (!strcmp (k, "chgobj")) { qsx_parse_q (qsx_tok[4], v); rv = mpq_QSchange_objcoef (P, atoi (qsx_tok[3]), v); }
+				else if (!strcmp (k, "chgcoef")) { qsx_parse_q (qsx_tok[5], v); rv = mpq_QSchange_coef (P, atoi (qsx_tok[3]), atoi (qsx_tok[4]), v); }
+				else if (!strcmp (k, "delrow")) rv = mpq_QSdelete_row (P, atoi (qsx_tok[3]));
+				else if (!strcmp (k, "delcol")) rv = mpq_QSdelete_col (P, atoi (qsx_tok[3]));
+				else if (!strcmp (k, "objsense")) rv = mpq_QSchange_objsense (P, !strcmp (qsx_tok[3], "MAX") ? QS_MAX : QS_MIN);
+				mpq_clear (v);
+				printf ("EDIT %d\n", rv);
+			}
 			else if (!strcmp (op, "DUMP") || !strcmp (op, "DUMPO"))
 			{
 				if (dump_names (stdout, P, op[4] != 'O')) printf ("P ERR\n");
